@@ -290,8 +290,10 @@ def sigma_filter(filename, region, step_size, box_size, shape, domask,
     _verif_point('after_barrier1', region)
 
     logging.debug("background subtraction")
-    data[0 + ymin - data_row_min: data.shape[0] -
-         (data_row_max - ymax), :] -= ibkg[ymin:ymax, :]
+    # subtract over the whole cut-out (including the margin rows that belong
+    # to neighbouring stripes) so the rms is never computed on data that
+    # still contains the background
+    data -= ibkg[data_row_min:data_row_max, :]
     _verif_point('bkg_subtracted', region)
     logging.debug(".. done ")
 
